@@ -109,6 +109,18 @@ func c02(r *ev.Run) {
 		}
 		return obs, ""
 	})
+	{
+		k := []byte("12345678901234567890")
+		sp := ref.B32Encode(k)
+		var cs []c02Case
+		for _, t := range []int64{59, 1111111109, 20000000000} {
+			for a := 0; a < 3; a++ {
+				cs = append(cs, c02Case{sp, t, 0, 0, false, 30, 8, a, false})
+			}
+			cs = append(cs, c02Case{sp, t, 999999999, 1, false, 0, 6, 0, false}, c02Case{Secret: sp, Unix: t, Nil: true})
+		}
+		afterWarmups(r, "totp-generate-after-other-operations", cs, func(c c02Case) (string, string) { return totpGen(c, k) })
+	}
 	if ReplayOnly {
 		return
 	}
